@@ -318,6 +318,32 @@ def rule_fresh_default(ctx, tainted) -> None:
     ctx.chk.decide(ok, "C17.fresh-default", f"{fn.qual} -> filler", "`if not source` returns an RNG draw", norm(ifs[0])[:120] if ifs else "branch missing", "return random_bytes(expected_size)", A.loc(fn.module.relpath, fn.node))
 
 
+def rule_hab_dek(ctx, tainted) -> None:
+    """C17.hab-dek: unless the user asked to re-use an existing DEK, the HAB DEK is an RNG draw (never read back from a file)."""
+    rp = "spsdk/image/hab/segments.py"
+    fn = ctx.own(rp, "CsfHabSegment", "get_dek_from_config")
+    ifs = [n for n in A.walk_no_nested(fn.node) if isinstance(n, ast.If) and "reuse_dek" in norm(n.test)]
+    if len(ifs) != 1:
+        raise AnalysisError("C17.hab-dek: the reuse_dek decision was not found")
+    iff = ifs[0]
+    t = norm(iff.test)
+    fresh_branch = iff.orelse if t == "reuse_dek" else iff.body if t in ("not reuse_dek",) else None
+    if fresh_branch is None:
+        raise AnalysisError(f"C17.hab-dek: unrecognised reuse test `{t}`")
+    mod = ast.Module(body=fresh_branch, type_ignores=[])
+    rets_after = [r for r in A.returns_in(fn.node) if r.lineno > iff.lineno and not any(r is x for x in ast.walk(iff))]
+    var = norm(rets_after[-1].value) if rets_after and rets_after[-1].value is not None else None
+    bad = []
+    for n in A.walk_no_nested(mod):
+        if isinstance(n, ast.Return) and n.value is not None and not t_calls(ctx, tainted, fn.module, fn.cls, n.value):
+            bad.append(norm(n))
+        if isinstance(n, ast.Assign) and var and norm(n.targets[0]) == var and not t_calls(ctx, tainted, fn.module, fn.cls, n.value):
+            bad.append(norm(n))
+    has_fresh = any(isinstance(n, ast.Assign) and var and norm(n.targets[0]) == var and t_calls(ctx, tainted, fn.module, fn.cls, n.value) for n in A.walk_no_nested(mod))
+    ctx.chk.decide(not bad and has_fresh, "C17.hab-dek", fn.qual + " (reuse not requested)", f"every value of `{var}` leaving the branch is an RNG draw",
+                   f"a DEK that is not freshly drawn leaves the not-reuse branch: {bad[0] if bad else 'no RNG draw found'}", f"{var} = random_bytes(key_length)", A.loc(rp, iff))
+
+
 def rule_routing(ctx, tainted) -> None:
     """C17.routing: the freshly drawn values are the ones the image uses (constructor routing)."""
     rp = "spsdk/sbfile/sb2/images.py"
@@ -368,6 +394,7 @@ def run(ctx) -> None:
     ctx.rule(rule_import_time, tainted)
     ctx.rule(rule_no_shared_cache, tainted)
     ctx.rule(rule_fresh_default, tainted)
+    ctx.rule(rule_hab_dek, tainted)
     ctx.rule(rule_routing, tainted)
     ctx.chk.assumptions = ["secrets/os.urandom are cryptographically strong and independent across calls and processes",
                            "call resolution is name/MRO based; unresolved calls are counted in evidence and not followed",
